@@ -44,7 +44,8 @@ CHECKS["C01"] = dict(
           "in every arm (four rows: for a non-flat tetrahedron), so a and b are one affine combination of the support points of A resp. B and "
           "a - b is that combination of Y's rows (C01_closest_points_affine), hence a in A, b in B for convex colliders when the weights are "
           "non-negative (C01_closest_points_feasible_partial: non-negativity is the solver's carrier property, a hypothesis; non-vacuity "
-          "Example with weights 1/2, 1/2); the no-improvement exit reports the exact distance (partial: "
+          "Example with weights 1/2, 1/2), and with NO hypothesis about the solver when the final simplex has two rows kept by the interior arm "
+          "of closest_point_line (C01_closest_points_feasible_two_rows); the no-improvement exit reports the exact distance (partial: "
           "under two hypotheses about the simplex solver - its result is a minimum-norm point of the hull of its rows, the current closest point "
           "lies in the hull of the current rows - which C18 proves for the line and the non-degenerate triangle arms and REFUTES inside the "
           "solver's epsilon bands (C18_jolt_refuted: false in general for tetrahedra); not discharged here; "
